@@ -412,9 +412,20 @@ class TextXVisitor(RRELVisitor):
                 rule_name = rule.rule_name
                 suppress = rule.suppress
                 if rule_name in model_parser.metamodel:
+                    if rule_name in resolving_names:
+                        line, col = grammar_parser.pos_to_linecol(rule.position)
+                        raise TextXSemanticError(
+                            f'Rule "{rule_name}" is defined only by a reference to'
+                            f" itself at position {(line, col)}.",
+                            line,
+                            col,
+                            filename=model_parser.metamodel.file_name,
+                        )
                     rule = model_parser.metamodel[rule_name]._tx_peg_rule
                     if isinstance(rule, RuleCrossRef):
+                        resolving_names.append(rule_name)
                         rule = _resolve_rule(rule)
+                        resolving_names.pop()
                         model_parser.metamodel[rule_name]._tx_peg_rule = rule
                     if suppress:
                         # Special case. Suppression on rule reference.
@@ -448,6 +459,7 @@ class TextXVisitor(RRELVisitor):
                 grammar_parser.dprint(f"RESOLVING RULE CROSS-REFS - PASS {i + 1}")
 
             resolved_rules = set()
+            resolving_names = []
             _resolve_rule(model_parser.parser_model)
 
             # Resolve rules of all meta-classes to handle unreferenced
